@@ -180,6 +180,27 @@ PROPS = {
         "instantaneous comparisons); verdicts the documentation does not "
         "settle abstain and are counted.",
     },
+    "C18": {
+        "flavours": ["asan"],
+        "runs": {"quick": 2000, "thorough": 80000},
+        "rule": "one case = cgroups with generated usage, file/anon split, "
+        "memory.min/high/max, swap limits and usage up the hierarchy, PSI "
+        "`some` totals advancing per tick, every Senpai argument drawn from "
+        "its domain, both modes, with and without memory.reclaim / "
+        "memory.high.tmp, 10-40 ticks with usage changes, foreign limit "
+        "changes, cgroups vanishing, re-created and new ones matching; the "
+        "world reacts to the writes; non-trivial = at least one control-file "
+        "write; distinct = distinct event-log hash",
+        "level_text": "seeded exploration; oracle = invariant on every "
+        "control-file write of the real Senpai: target matched by `cgroup`, "
+        "each memory.high(.tmp) write classifies as exactly one of init "
+        "(usage, on first sight / limit mismatch), adjust (4 KiB aligned, >= "
+        "floor-4095, <= ceiling unless floor > ceiling), poke (bounded by "
+        "max_probe x (usage - floor), guards hold) followed by a reset to max "
+        "within the tick; memory.reclaim sizes under the same bound and "
+        "guards; swappiness restored within the tick. Floor/ceiling/guards "
+        "are recomputed by the reference of DESIGN.md Appendix B.",
+    },
     "C02": {
         "flavours": ["asan"],
         "runs": {"quick": 4000, "thorough": 150000},
